@@ -233,6 +233,12 @@ pub fn run(args: &Args) {
             o.tags.push(format!("digits:{}", match g.digits { 0 => "0", 1..=9 => "1-9", _ => ">=10" }));
             o.tags.push(format!("secret-len:{}", match g.secret.len() { 0 => "0", 1..=19 => "1-19", 20..=32 => "20-32", _ => "33-64" }));
             if impl_s != model_s {
+                // label and issuer are fixed by the property (the path of the URI without its leading slashes, the
+                // issuer parameter) and the model is proved to return them: a difference there is a failing input
+                let head = |x: &str| x.split(' ').take(3).collect::<Vec<_>>().join(" ");
+                if impl_s.starts_with("ok ") && model_s.starts_with("ok ") && head(&impl_s) != head(&model_s) && o.violation.is_none() {
+                    o.violation = Some(format!("parsing does not recover label/issuer: got {} expected {}", head(&impl_s), head(&model_s)));
+                }
                 o.disagreement = Some((impl_s, model_s));
             }
             o.input = format!("{} ;uri {}", input, g.uri);
